@@ -703,6 +703,8 @@ class Interp:
                 self.raise_exc('TypeError', 'not a container', node)
         if isinstance(container, SSeq):
             return container.contains(self, item)
+        if hasattr(container, 'contains') and not isinstance(container, (str, SV)):
+            return container.contains(self, item)
         if isinstance(container, SStr) or (isinstance(container, str) and isinstance(item, SStr)):
             if not is_strlike(item):
                 self.raise_exc('TypeError', 'in <string> requires string', node)
@@ -1105,6 +1107,13 @@ class Interp:
         return result
 
     def is_(self, a, b, node):
+        from .heapmodel import STypeTag, VTYPE, NONE_V
+        if isinstance(a, STypeTag) or isinstance(b, STypeTag):
+            conv = lambda x: x if isinstance(x, STypeTag) else (STypeTag(VTYPE(NONE_V)) if x is type(None) else None)
+            a2, b2 = conv(a), conv(b)
+            if a2 is None or b2 is None:
+                raise Unsupported('type identity between an opaque value and a concrete type', node)
+            return mk_bool(a2.t == b2.t)
         if a is None or b is None:
             if isinstance(a, sym.SOpaque) or isinstance(b, sym.SOpaque):
                 from . import heap
@@ -2030,11 +2039,12 @@ class Interp:
         from .seqs import SSeq
         it = self.eval(node.iter, env)
         from .vc import loop_hook
-        if isinstance(it, SSeq) or loop_hook(self, node, env, it):
+        from .heapmodel import SAbstractSet
+        if isinstance(it, (SSeq, SAbstractSet)):
             handled = loop_hook(self, node, env, it, force=True)
             if handled:
                 return
-            raise Unsupported('for loop over symbolic-length sequence without invariant', node)
+            raise Unsupported('for loop over a collection of unknown size without an invariant', node)
         items = self.iterate(it, node)
         if len(items) > self.MAX_UNROLL:
             raise Unsupported('loop too long to unroll', node)
